@@ -2,6 +2,7 @@
 options.
 """
 
+import codecs
 import os
 import typing
 import typing as t
@@ -1609,7 +1610,7 @@ class TemplateStream:
 
         try:
             if encoding is not None:
-                iterable = (x.encode(encoding, errors) for x in self)  # type: ignore
+                iterable = self._encoded(encoding, errors or "strict")  # type: ignore
             else:
                 iterable = self  # type: ignore
 
@@ -1621,6 +1622,16 @@ class TemplateStream:
         finally:
             if close:
                 real_fp.close()
+
+    def _encoded(self, encoding: str, errors: str) -> t.Iterator[bytes]:
+        # one encoder for the whole stream, encoding each piece on its own
+        # would write a BOM per piece for codecs like utf-16
+        encoder = codecs.getincrementalencoder(encoding)(errors)
+
+        for item in self:
+            yield encoder.encode(item)
+
+        yield encoder.encode("", final=True)
 
     def disable_buffering(self) -> None:
         """Disable the output buffering."""
